@@ -200,8 +200,10 @@ func genFieldType(t *rapid.T, ctx *typeCtx, names, pkgs []string, self int, dept
 				return Named(pkgs[j], names[j])
 			}
 		}
-	case "structRef": // through a pointer or slice: any declaration, including this one
-		j := rapid.IntRange(0, len(names)-1).Draw(t, "fstructRef")
+	case "structRef": // through a pointer or slice: this declaration or an earlier one
+		// self or an earlier declaration: type graphs are acyclic apart from self-recursion
+		// (mutually recursive structs are an unsupported shape; C14's decorations cover them)
+		j := rapid.IntRange(0, self).Draw(t, "fstructRef")
 		if canRef(from, pkgs[j]) {
 			if rapid.Bool().Draw(t, "refBySlice") {
 				return Slice(Named(pkgs[j], names[j]))
